@@ -216,6 +216,89 @@ PROPS = {
                       "mappings themselves are bounded (corner-case sets), hence 'other'.",
         "level_note": "Trusted: CPython int semantics; converters not verified.",
     },
+    "C13": {
+        "modules": [],
+        "extra": [{"kind": "venv", "name": "frame-checker", "script": "tools/frame_check.py", "args": ["--prop", "C13"]}],
+        "claim_level": "other",
+        "design_ref": "6.13",
+        "technique": "contract-based: frame / effect checker (modifies clauses over the real call graph, tools/frame.py) "
+                     "resting on the C01/C02 method contracts; bounded before/after stand-in on witness datasets",
+        "clauses_decided": [
+            "for each of 49 read-only entry points (every registered serializer class, evalQuery, rdflib.compare "
+            "isomorphic/to_isomorphic/to_canonical_graph/graph_diff/similar, Graph iteration/slicing/value/items/cbd/"
+            "skolemize, ConjunctiveGraph/Dataset triples/quads/__contains__/triples_choices/graphs, every path operator's "
+            "eval): every call site of a mutator (add, addN, remove, set, +=, -=, parse, update, remove_graph, add_graph/"
+            "graph, remove_context, rollback, commit, destroy) reachable in the package call graph has a receiver in "
+            "region FRESH (allocated inside the call tree on a new store) or is accepted on the strength of a callee "
+            "contract proved in C02 (listed under allowed_sites)",
+        ],
+        "clauses_not_decided": [
+            "'the same read twice gives the same answer' beyond purity: determinism of hidden caches "
+            "(NamespaceManager caches, Literal value caches) is assumed; covered by the bounded run only",
+            "dynamic dispatch outside the class-hierarchy/method-name resolution (getattr, plugins other than the "
+            "registered serializers), stores other than the in-memory ones (A5)",
+        ],
+        "explanation": "A modifies-clause checker over the real sources: regions INPUT/FRESH flow through assignments, "
+                       "constructors, attributes and calls (flow-sensitive inside a function, context-sensitive in the "
+                       "argument regions).",
+        "assumptions": A_COMMON,
+        "level_text": "Static proof of the frame obligations for every read-only entry point over the real call graph "
+                      "(all dataset shapes at once), plus a bounded before/after run on witness datasets; category "
+                      "'other' because call resolution is by class hierarchy and method name (A5).",
+        "level_note": "Trusted: call-graph resolution (CHA by name within rdflib, plugin table), region transfer rules "
+                      "of tools/frame.py, the C02 contracts behind the allowed sites.",
+    },
+    "C12": {
+        "modules": [],
+        "extra": [{"kind": "venv", "name": "frame-checker", "script": "tools/frame_check.py", "args": ["--prop", "C12"]}],
+        "claim_level": "other",
+        "design_ref": "6.12",
+        "technique": "contract-based: frame / effect checker with the add-only mutator set over every parser entry "
+                     "point; bounded two-document stand-in for label scoping",
+        "clauses_decided": [
+            "add-only: from NTParser, NQuadsParser, TurtleParser, N3Parser, TrigParser, RDFXMLParser, TriXParser, "
+            "JsonLDParser, HextuplesParser .parse and Graph/ConjunctiveGraph/Dataset.parse no remove / set / -= / "
+            "remove_graph / remove_context / update / rollback / destroy reaches the sink graph, its dataset or anything "
+            "on its store (frame obligations over the real call graph); with C01's add contract (Q' is a superset of Q) "
+            "existing triples in any graph are never removed or altered",
+        ],
+        "clauses_not_decided": [
+            "blank-node label scoping per parse call and 'the result is the RDF merge' (needs the parsers' functional "
+            "correctness): bounded stand-in only (two documents / same document twice, every syntax)",
+        ],
+        "explanation": "Same effect checker as C13 with the removing/overwriting operations as the forbidden set.",
+        "assumptions": A_COMMON,
+        "level_text": "Static proof of the add-only frame obligations for every parser; label scoping bounded; 'other'.",
+        "level_note": "Trusted: call-graph resolution by name (A5), region rules; SAX/pyparsing callbacks are followed "
+                      "only as far as they are ordinary method calls.",
+    },
+    "C15": {
+        "modules": ["contracts.c15_prepared"],
+        "extra": [{"kind": "venv", "name": "frame-checker", "script": "tools/frame_check.py", "args": ["--prop", "C15"]}],
+        "claim_level": "other",
+        "design_ref": "6.15",
+        "technique": "contract-based: frame checker in tree mode (no write into the prepared query's algebra tree during "
+                     "evaluation) + PyVC contract of Expr.eval; bounded stand-in for repeated evaluation and stores",
+        "clauses_decided": [
+            "decides only the prepared-query clause: no function reachable from evalQuery/evalPart writes to the "
+            "Query/CompValue algebra tree (item/attribute assignment, append/extend/insert/remove/pop/clear/sort/reverse/"
+            "update/setdefault/del on anything reachable from the query argument); the single write site, Expr.eval's "
+            "self.ctx, is proved to be undone on every exit (normal and exceptional)",
+        ],
+        "clauses_not_decided": [
+            "rewrite invariance (pattern permutation, operand swap, variable renaming, prefix spelling, initBindings vs "
+            "VALUES): relational property of parser+translator+evaluator, not decidable by function contracts",
+            "store independence: Memory/SimpleMemory refine the same Store contract (C01), AuditableStore.triples (C18); "
+            "ReadOnlyGraphAggregate not under contract - bounded only",
+        ],
+        "explanation": "State leaks between evaluations of a prepared query can only go through the query object: the "
+                       "frame checker proves it is not written.",
+        "assumptions": A_COMMON,
+        "level_text": "Static proof that evaluation does not write the prepared query (all queries at once); the "
+                      "rewrite-invariance clauses are not decided; 'other'.",
+        "level_note": "Trusted: call-graph resolution by name (A5); _evalfn callbacks modelled as arbitrary callees that "
+                      "do not assign self.ctx.",
+    },
     "C17": {
         "modules": ["contracts.c17_store"],
         "claim_level": "proof",
